@@ -16,6 +16,7 @@ def level_ok(keypred, name):
 
 def run(prog, chk):
     insert_table(prog, chk)
+    reset_table(prog, chk)
     _run(prog, chk)
 
 
@@ -312,3 +313,37 @@ def insert_table(prog, chk):
                    "expected %s; source: status %s, slots before %s, after %s, released %s" %
                    (exp, hex(q.ret) if isinstance(q.ret, int) else q.ret, [str(before[s]) for s in range(4)], [str(final[s]) for s in range(4)],
                     [str(f) for f in freed if f != 0]), loc=fi.loc(), fn=fi)
+
+
+def reset_table(prog, chk):
+    """KSI_BlockSigner_reset for a signer with and without a signature held, with and without a previous leaf: whenever it returns
+    KSI_OK the signer is in the state KSI_BlockSigner_new leaves it in."""
+    import itertools
+    chk.rule("C16.resetstate", "reset: signature dropped, previous leaf rewound to the original one, fresh builder with both processors, "
+                               "whatever the signer held before (decision table)", floor=4)
+    fn = prog.fn("KSI_BlockSigner_reset", "blocksigner.c")
+    sp = fn.params[0]["n"]
+    for has_sig, has_prev in itertools.product((0, 1), (0, 1)):
+        inputs = {sp: Ptr("S"), "S->ctx": Ptr("ctx"), "S->builder": Ptr("OLDB"), "OLDB->algo": 1, "S->signature": Ptr("SIG") if has_sig else 0,
+                  "S->prevLeaf": Ptr("CURLEAF") if has_prev else 0, "S->origPrevLeaf": Ptr("ORIG") if has_prev else 0, "NEWB->cbList": Ptr("CBL")}
+        appended = []
+
+        def tbnew(I, p, node, args):
+            I.write(p, lvalue_key(strip(node["a"][2])["e"], I.fn), Ptr("NEWB"))
+            return 0
+        ov = {"KSI_TreeBuilder_new": tbnew, "KSI_DataHash_ref": lambda I, p, n, a: a[0],
+              "KSI_TreeBuilderLeafProcessorList_append": lambda I, p, n, a: (appended.append(a[1]), 0)[1],
+              "KSI_Signature_free": lambda I, p, n, a: TOP, "KSI_TreeBuilder_free": lambda I, p, n, a: TOP, "KSI_DataHash_free": lambda I, p, n, a: TOP}
+        I = Interp(fn, inputs=inputs, call_model=succeed_model(prog, ov), on_unknown="stop", prog=prog)
+        paths = I.run()
+        chk.paths += len(paths)
+        inst = "BlockSigner_reset[signature %s,previous leaf %s]" % ("held" if has_sig else "absent", "in use" if has_prev else "not used")
+        if len(paths) != 1 or paths[0].undetermined:
+            raise AnalysisBroken("KSI_BlockSigner_reset: evaluation not determined for %s: %s" % (inst, [q.undetermined[:1] for q in paths]))
+        q = paths[0]
+        sig, prev, bld = I.read(q, "S->signature"), I.read(q, "S->prevLeaf"), I.read(q, "S->builder")
+        procs = [str(a.what).split("->")[-1].split(".")[-1] if isinstance(a, Ptr) else a for a in appended]
+        ok = q.ret == 0 and sig == 0 and prev == (Ptr("ORIG") if has_prev else 0) and bld == Ptr("NEWB") and procs == ["metaDataProcessor", "maskingProcessor"]
+        chk.ob("C16.resetstate", inst, ok,
+               "expected: no signature, previous leaf = the original one, a new builder with the metadata then the masking processor; source: "
+               "status %s, signature %s, previous leaf %s, builder %s, processors %s" % (q.ret, sig, prev, bld, procs), loc=fn.loc(), fn=fn)
